@@ -655,8 +655,7 @@ fn ast_params(prop: &str, tier: Tier) -> AstParams {
         (_, Tier::Thorough) => AstParams {
             max_lines: 6,
             max_depth: 3,
-            block_kinds: vec![Kind::Expired, Kind::Future, Kind::SkipExpired],
-            mb: true,
+            block_kinds: vec![Kind::Expired, Kind::Future],
             shared_pairs: vec![(Kind::Expired, Kind::Expired), (Kind::Future, Kind::Expired)],
             ..base
         },
@@ -736,7 +735,13 @@ pub fn run(r: &Report, prop: &str) {
             if prop == "C15" && starts_blank {
                 return;
             }
-            let pairs: &[usize] = if r.tier == Tier::Thorough && prop != "C17" { &[0, 1, 6] } else { &[0] };
+            // C15's model-free link locates regions by marker columns, which are only defined for
+            // ASCII text left of the marker: ASCII spellings there; C16 guards per region
+            let pairs: &[usize] = match (r.tier, prop) {
+                (Tier::Thorough, "C15") => &[0, 2],
+                (Tier::Thorough, "C16") => &[0, 6],
+                _ => &[0],
+            };
             for &pi in pairs {
                 let d = &gen::POOL[pi];
                 let rd = gen::render(
